@@ -13,6 +13,8 @@ PROP = Prop(
         Fn(_P + '__init__', safety_tag='C02'),
         Fn('hpl.ast.events.HplEventDisjunction.__init__', safety_tag='C02'),
         Lem('concat_nth'), Lem('alts_are_simple'),
+        # lemmas of the reference queries (C15) that the query tasks below use as hints
+        Lem('mentioned_unbound_is_free_list'), Lem('mentioned_unbound_is_free'),
         # the queries the acceptance rule is computed from (callee contracts of the chain above)
         *[Fn('hpl.ast.events.HplEvent.' + m, classes=['HplSimpleEvent', 'HplEventDisjunction'], safety_tag='C02')
           for m in ('aliases', 'external_references')],
